@@ -181,6 +181,8 @@ def op_strategy(draw):
     op = dict(op=name)
     if name == "solve":
         op["lam"] = draw(st.integers(-4, 8)) / 4.0
+    elif name == "save":
+        op["extra"] = draw(st.sampled_from([None, None, "fresh", "shared"]))
     elif name == "folder":
         op["to"] = draw(st.sampled_from(["", "A", "B"]))
     elif name in ("set_iter", "get_results", "result_iter", "continue"):
@@ -202,9 +204,10 @@ def histories(draw, kinds=KINDS):
     # iterations in different places before the free part starts
     npairs = draw(st.integers(1, 4))
     ops = []
+    xmode = draw(st.sampled_from([None, None, "fresh", "shared"]))
     for _ in range(npairs):
         ops.append(dict(op="solve", lam=draw(st.integers(-4, 8)) / 4.0))
-        ops.append(dict(op="save"))
+        ops.append(dict(op="save", extra=xmode))
         if draw(st.integers(0, 2)) == 0:
             ops.append(dict(op="folder", to=draw(st.sampled_from(["", "A", "B"]))))
     if kind != "beam" and draw(st.integers(0, 4)) == 0:
@@ -262,6 +265,7 @@ def run_history(case, rec):
         simu = ad.make(case["recipe"])
         simu.folder = dirs[case["folder0"]]
         snaps = []  # shadow snapshots: dict(fields, results, mesh, lam_next, where)
+        shared_extra = {}
         cur_mesh_sig = _mesh_sig(simu.mesh)
         last_lam = None
         events_since_save = 0
@@ -283,12 +287,21 @@ def run_history(case, rec):
                 if last_lam is None:
                     continue
                 fields = ad.fields(simu)
-                simu.Save_Iter()
+                extra = op.get("extra")
+                if extra:
+                    # extra per-iteration data handed to Save_Iter: a new dict every time, or the same dict object updated by the
+                    # caller before each call (the stored iterations must not be views of it)
+                    xd = shared_extra if extra == "shared" else {}
+                    xd["load_level"] = float(last_lam)
+                    simu.Save_Iter(xd)
+                    rec.label("save_extra:" + extra)
+                else:
+                    simu.Save_Iter()
                 # results are recorded once the step is committed (history-dependent materials commit at Save_Iter)
                 res = ad.results(simu)
                 _equal_fields(rec, ad.fields(simu), fields, "save_iter_pure", "Save_Iter changed the current fields", sig)
                 snaps.append(dict(fields=fields, results=res, mesh=_mesh_sig(simu.mesh), next=None, is_current=True,
-                                  where="disk" if simu.folder else "memory"))
+                                  where="disk" if simu.folder else "memory", extra=float(last_lam) if extra else None))
                 rec.label("saved:" + snaps[-1]["where"])
                 events_since_save = 0
                 rec.require(simu.Niter == len(snaps), "niter", f"Niter={simu.Niter} after {len(snaps)} Save_Iter", **sig)
@@ -322,6 +335,9 @@ def run_history(case, rec):
                     r = simu.Get_results(i)
                     _equal_fields(rec, r, {k: v for k, v in S["fields"].items() if k in r or kind != "thermal"}, "get_results",
                                   f"Get_results({i}) [{S['where']}]", sig)
+                    if S.get("extra") is not None:
+                        rec.require(float(r.get("load_level", np.nan)) == S["extra"], "get_results_extra",
+                                    f"Get_results({i}) [{S['where']}]: extra data load_level={r.get('load_level')!r}, {S['extra']!r} was saved", **sig)
                     _equal_fields(rec, ad.fields(simu), before, "get_results_pure", f"Get_results({i}) altered the simulation state", sig)
                     _equal_fields(rec, _mesh_sig(simu.mesh), mesh_before, "get_results_pure", f"Get_results({i}) altered the mesh", sig)
                     nontrivial |= old
